@@ -4,12 +4,12 @@ package main
 // discharge, triage failures (known findings, replay), print verdict, write evidence.
 
 import (
-	"regexp"
 	"encoding/json"
 	"flag"
 	"fmt"
 	"os"
 	"path/filepath"
+	"regexp"
 	"sort"
 	"strconv"
 	"strings"
